@@ -32,6 +32,21 @@ CLAIMED = {
         "note": "Partial edits when a `?` fails inside a loop of mutations are not decided (value ranges). " + TRUST,
         "technique": "CFG reachability from push sites to `?`/Err exits, callee fallibility via call graph",
     },
+    "C23": {
+        "level": "Exhaustive static decision over finite tables: Function<->field codecs extracted from MIR are mutually "
+                 "inverse bijections (495 x 3 tables), xlsx names parse back, and per language (5 x 495 names, 12 errors) the "
+                 "decoded language.bin satisfies distinctness / uppercase fixed point / single-identifier / prefix-freedom.",
+        "note": "Python str.upper/isalnum stand in for Rust's to_uppercase/is_alphanumeric on the table strings; the table "
+                "decoder is generated from the ADT facts and only decodes the embedded constant. " + TRUST,
+        "technique": "if-chain and match-table extraction from MIR + exhaustive checks on decoded constant tables",
+    },
+    "C26": {
+        "level": "Structural decision: Encode+Decode derived on the entire field closure of Workbook without bitcode "
+                 "attributes; to_bytes/from_bytes/from_workbook have the required shape (whole workbook encoded, reparse "
+                 "must-pass-through before Ok).",
+        "note": "bitcode's codec is trusted; printer/parser agreement on the re-parsed R1C1 text is C09's subject. " + TRUST,
+        "technique": "impl/ADT closure query + CFG dominance (must-pass-through) + provenance of encode/decode operands",
+    },
 }
 
 _TODO = "check not built yet in this round (see DESIGN.md §7 order of construction); will be claimed when its rule exists"
